@@ -78,6 +78,7 @@ pub fn observe_one<S: QueryStatementWriter, B: QueryBuilder + Default>(s: &S, ev
     let mut o = json!({
         "inline": inline, "inline_again": inline2,
         "sql": sql, "values": vals(&values),
+        "lits": values.0.iter().map(|v| B::default().value_to_string(v)).collect::<Vec<String>>(),
         "sql_any": sql_any, "values_any": vals(&values_any),
         "collect_sql": collect_sql, "collect_values": vals(&collect_values),
         "collect_any_sql": collect_any_sql, "collect_string": collect_string,
